@@ -11,9 +11,11 @@ package chk
 // The signatures of the confirmed tree come from rules/sigs_gen.go (tools/gen_sigs.sh).
 
 import (
+	"fmt"
 	"go/ast"
 	"go/token"
 	"go/types"
+	"os"
 	"sort"
 	"strings"
 
@@ -196,7 +198,11 @@ func planAnchorRestore(p *Prog, in *inliner, plan *canonPlan, skipDecl map[*ast.
 			}
 			_, ht := have.operands()
 			if !sameStrings(have.RTypes, want.RTypes) {
-				continue
+				// a procedure that now also reports something (the same operands, a result where there was none) is
+				// still that procedure: the rules on its body and on where it is called from read the same
+				if !(len(want.RTypes) == 0 && len(have.RTypes) > 0 && newName && sameStrings(have.PTypes, want.PTypes) && have.Recv == want.Recv) {
+					continue
+				}
 			}
 			if newName && want.Recv != "" && have.Recv == "" && sameStrings(have.PTypes, want.PTypes) {
 				// an anchored method that lost its (unused) receiver *and* its name: the name is given back here, the
@@ -262,6 +268,12 @@ func planAnchorRestore(p *Prog, in *inliner, plan *canonPlan, skipDecl map[*ast.
 				}
 			}
 			continue
+		}
+		if os.Getenv("MLB_DEBUG_RESTORE") == want.Name {
+			fmt.Fprintln(os.Stderr, "restore", want.Name, "present", present, "cands", len(cands), "renames", len(renames))
+			for _, c := range cands {
+				fmt.Fprintln(os.Stderr, "  cand", c.Name())
+			}
 		}
 		if present || len(cands) != 1 {
 			continue
@@ -594,6 +606,100 @@ func planFieldRestore(p *Prog, in *inliner, plan *canonPlan) {
 			cur[st.Field(i).Name()] = st.Field(i)
 		}
 		used := map[*types.Var]bool{}
+		// a field that holds the recorded concrete type behind an interface of this module (dependency inversion for the
+		// tests' sake): when everything the analysed code ever stores there is of the recorded type, the calls through
+		// it are calls of that type's methods - the field gets its recorded type back
+		for _, want := range pf {
+			c := cur[want.Name]
+			if c == nil || types.TypeString(c.Type(), q) == want.FType {
+				continue
+			}
+			nt, isNamed := c.Type().(*types.Named)
+			if !isNamed || nt.Obj().Pkg() == nil || !strings.HasPrefix(nt.Obj().Pkg().Path(), Module) {
+				continue
+			}
+			if _, isIface := nt.Underlying().(*types.Interface); !isIface {
+				continue
+			}
+			var stored types.Type
+			good, n := true, 0
+			note := func(info *types.Info, rhs ast.Expr) {
+				t := info.TypeOf(rhs)
+				if t == nil || types.TypeString(t, q) != want.FType {
+					good = false
+					return
+				}
+				stored = t
+				n++
+			}
+			for _, pk := range p.Pkgs {
+				for _, file := range pk.Syntax {
+					if strings.HasSuffix(p.Fset.Position(file.Pos()).Filename, "_test.go") {
+						continue
+					}
+					ast.Inspect(file, func(m ast.Node) bool {
+						switch v := m.(type) {
+						case *ast.KeyValueExpr:
+							if k, isId := v.Key.(*ast.Ident); isId && pk.TypesInfo.Uses[k] == types.Object(c) {
+								note(pk.TypesInfo, v.Value)
+							}
+						case *ast.AssignStmt:
+							for i, l := range v.Lhs {
+								sel, isSel := ast.Unparen(l).(*ast.SelectorExpr)
+								if !isSel || pk.TypesInfo.Uses[sel.Sel] != types.Object(c) {
+									continue
+								}
+								if len(v.Lhs) != len(v.Rhs) {
+									good = false
+									continue
+								}
+								note(pk.TypesInfo, v.Rhs[i])
+							}
+						case *ast.UnaryExpr:
+							if sel, isSel := ast.Unparen(v.X).(*ast.SelectorExpr); isSel && v.Op == token.AND && pk.TypesInfo.Uses[sel.Sel] == types.Object(c) {
+								good = false
+							}
+						case *ast.CompositeLit:
+							// an unkeyed literal of the struct
+							if t := pk.TypesInfo.TypeOf(v); t != nil && len(v.Elts) > 0 {
+								if _, isKV := v.Elts[0].(*ast.KeyValueExpr); !isKV {
+									if ut, isSt := t.Underlying().(*types.Struct); isSt && ut == st {
+										good = false
+									}
+								}
+							}
+						}
+						return true
+					})
+				}
+			}
+			if !good || n == 0 || stored == nil {
+				continue
+			}
+			// the declaration: a field of its own
+			var ftype ast.Expr
+			for _, file := range pkg.Syntax {
+				ast.Inspect(file, func(m ast.Node) bool {
+					fl, isF := m.(*ast.Field)
+					if isF && len(fl.Names) == 1 && pkg.TypesInfo.Defs[fl.Names[0]] == types.Object(c) {
+						ftype = fl.Type
+					}
+					return ftype == nil
+				})
+			}
+			if ftype == nil {
+				continue
+			}
+			txt := types.TypeString(stored, func(o *types.Package) string {
+				if o == pkg.Types {
+					return ""
+				}
+				return o.Name()
+			})
+			fe := in.file(ftype.Pos())
+			fe.edits = append(fe.edits, textEdit{start: in.off(ftype.Pos()), end: in.off(ftype.End()), text: txt})
+			plan.expanded = append(plan.expanded, "field type restored: "+key+"."+want.Name+" "+nt.Obj().Name()+" -> "+txt)
+		}
 		for _, want := range pf {
 			if cur[want.Name] != nil || !idents[want.Name] {
 				continue
@@ -1312,4 +1418,469 @@ func (in *inliner) ungroupResults(pk *packages.Package, f *Fn, st *types.Struct,
 		fe.edits = append(fe.edits, textEdit{start: in.off(e.a), end: in.off(e.b), text: e.t})
 	}
 	return true
+}
+
+// ---- a parameter that became a read of the receiver ----------------------------------------------------------------
+
+// planReceiverParamRestore: an anchored plain function `name(.., q Q, ..)` that is gone while the package has a method
+// of that name with the same parameters minus q and the same results, whose receiver is used only as the root of one
+// selector chain of type Q that the body never assigns, is that function with the argument every caller passed moved
+// behind the receiver ("the pools were always a.pools.ByName"). Declaration and calls get the recorded shape back:
+// the chain becomes the parameter again, and every call r.name(args) becomes name(.., r.chain, ..).
+func planReceiverParamRestore(p *Prog, in *inliner, plan *canonPlan, skipDecl map[*ast.FuncDecl]bool) {
+	isTest := func(f *Fn) bool { return strings.HasSuffix(p.Fset.Position(f.Decl.Pos()).Filename, "_test.go") }
+	for _, want := range pinnedSigs {
+		if want.Recv != "" {
+			continue
+		}
+		Anchors.mu.Lock()
+		anch := Anchors.pinned[want.Pkg+"."+want.Name]
+		Anchors.mu.Unlock()
+		pk := p.ByPath[want.Pkg]
+		if !anch || pk == nil || pk.Types.Scope().Lookup(want.Name) != nil {
+			continue
+		}
+		var cands []*Fn
+		for _, f := range p.fnList {
+			if f.Pkg != pk || f.Decl == nil || f.Decl.Recv == nil || f.Decl.Body == nil || isTest(f) || f.Decl.Type.TypeParams != nil || f.Decl.Name.Name != want.Name {
+				continue
+			}
+			cands = append(cands, f)
+		}
+		if len(cands) != 1 {
+			continue
+		}
+		c := cands[0]
+		have, ok := SigOf(c)
+		if !ok || !sameStrings(have.RTypes, want.RTypes) || len(have.PTypes)+1 != len(want.PTypes) {
+			continue
+		}
+		// the missing parameter
+		q := -1
+		for i := range want.PTypes {
+			rest := append(append([]string{}, want.PTypes[:i]...), want.PTypes[i+1:]...)
+			if sameStrings(rest, have.PTypes) {
+				if q >= 0 {
+					q = -2
+					break
+				}
+				q = i
+			}
+		}
+		if q < 0 || strings.HasPrefix(want.PTypes[q], "...") || len(c.Decl.Recv.List) != 1 || len(c.Decl.Recv.List[0].Names) != 1 {
+			continue
+		}
+		for _, t := range have.PTypes {
+			if strings.HasPrefix(t, "...") {
+				q = -1
+			}
+		}
+		if q < 0 {
+			continue
+		}
+		info := pk.TypesInfo
+		recvObj := info.Defs[c.Decl.Recv.List[0].Names[0]]
+		if recvObj == nil {
+			continue
+		}
+		qual := types.RelativeTo(pk.Types)
+		// every use of the receiver roots the same chain of type Q
+		var chains []ast.Expr
+		chainText := ""
+		good := true
+		ast.Inspect(c.Decl.Body, func(n ast.Node) bool {
+			id, isId := n.(*ast.Ident)
+			if !isId || info.Uses[id] != recvObj {
+				return true
+			}
+			var top ast.Expr = id
+			found := false
+			for {
+				sel, isSel := p.parents[top].(*ast.SelectorExpr)
+				if !isSel || sel.X != top {
+					break
+				}
+				if s := info.Selections[sel]; s == nil || s.Kind() != types.FieldVal {
+					break
+				}
+				top = sel
+				if t := info.TypeOf(top); t != nil && types.TypeString(t, qual) == want.PTypes[q] {
+					found = true
+					break
+				}
+			}
+			if !found {
+				good = false
+				return true
+			}
+			txt := in.text(top.Pos(), top.End())
+			if chainText == "" {
+				chainText = txt
+			} else if chainText != txt {
+				good = false
+			}
+			// not assigned, not address-taken
+			switch par := p.parents[top].(type) {
+			case *ast.AssignStmt:
+				for _, l := range par.Lhs {
+					if l == top {
+						good = false
+					}
+				}
+			case *ast.UnaryExpr:
+				if par.Op == token.AND {
+					good = false
+				}
+			case *ast.IncDecStmt:
+				good = false
+			}
+			chains = append(chains, top)
+			return true
+		})
+		if !good || len(chains) == 0 {
+			continue
+		}
+		// the parameter's name must be free in the method
+		pname := want.PNames[q]
+		if pname == "" || pname == "_" {
+			pname = "restored"
+		}
+		clash := false
+		ast.Inspect(c.Decl, func(n ast.Node) bool {
+			if id, isId := n.(*ast.Ident); isId && id.Name == pname {
+				if v, isVar := info.ObjectOf(id).(*types.Var); isVar && v.IsField() {
+					return true
+				}
+				clash = true
+			}
+			return true
+		})
+		if clash {
+			pname += "_"
+		}
+		// references: direct method calls on a plain operand, inside the package
+		type ref struct {
+			call *ast.CallExpr
+			x    ast.Expr
+		}
+		var refs []ref
+		okRefs := true
+		for _, pkg := range p.Pkgs {
+			for _, file := range pkg.Syntax {
+				ast.Inspect(file, func(n ast.Node) bool {
+					id, isId := n.(*ast.Ident)
+					if !isId || pkg.TypesInfo.Uses[id] != types.Object(c.Obj) {
+						return true
+					}
+					sel, isSel := p.parents[id].(*ast.SelectorExpr)
+					if !isSel || sel.Sel != id || pkg != pk {
+						okRefs = false
+						return true
+					}
+					call, isCall := p.parents[sel].(*ast.CallExpr)
+					if !isCall || call.Fun != ast.Expr(sel) || call.Ellipsis.IsValid() || !isPlainOperand(sel.X) {
+						okRefs = false
+						return true
+					}
+					if s := pkg.TypesInfo.Selections[sel]; s == nil || s.Kind() != types.MethodVal {
+						okRefs = false
+						return true
+					}
+					refs = append(refs, ref{call, sel.X})
+					return true
+				})
+			}
+		}
+		if !okRefs {
+			continue
+		}
+		// the type as this file would spell it
+		var qt types.Type
+		if t := info.TypeOf(chains[0]); t != nil {
+			qt = t
+		}
+		if qt == nil {
+			continue
+		}
+		typeText := types.TypeString(qt, func(o *types.Package) string {
+			if o == pk.Types {
+				return ""
+			}
+			return o.Name()
+		})
+		d := c.Decl
+		var hdr strings.Builder
+		hdr.WriteString("func " + want.Name + "(")
+		k := 0
+		var parts []string
+		for _, fld := range d.Type.Params.List {
+			tt := in.text(fld.Type.Pos(), fld.Type.End())
+			names := fld.Names
+			if len(names) == 0 {
+				parts = append(parts, "_ "+tt)
+				k++
+				continue
+			}
+			for _, nm := range names {
+				parts = append(parts, nm.Name+" "+tt)
+				k++
+			}
+		}
+		parts = append(parts[:q], append([]string{pname + " " + typeText}, parts[q:]...)...)
+		hdr.WriteString(strings.Join(parts, ", ") + ")")
+		fe := in.file(d.Pos())
+		fe.edits = append(fe.edits, textEdit{start: in.off(d.Pos()), end: in.off(d.Type.Params.Closing) + 1, text: hdr.String()})
+		for _, ch := range chains {
+			fe := in.file(ch.Pos())
+			fe.edits = append(fe.edits, textEdit{start: in.off(ch.Pos()), end: in.off(ch.End()), text: pname})
+		}
+		recvName := c.Decl.Recv.List[0].Names[0].Name
+		suffix := strings.TrimPrefix(chainText, recvName)
+		for _, r := range refs {
+			var args []string
+			for _, a := range r.call.Args {
+				args = append(args, in.text(a.Pos(), a.End()))
+			}
+			x := in.text(r.x.Pos(), r.x.End()) + suffix
+			args = append(args[:q], append([]string{x}, args[q:]...)...)
+			fe := in.file(r.call.Pos())
+			fe.edits = append(fe.edits, textEdit{start: in.off(r.call.Pos()), end: in.off(r.call.End()), text: want.Name + "(" + strings.Join(args, ", ") + ")"})
+		}
+		skipDecl[d] = true
+		plan.expanded = append(plan.expanded, "anchor restored: ("+have.Recv+")."+have.Name+" -> "+want.Name+" (parameter "+pname+" = receiver"+suffix+")")
+	}
+}
+
+// ---- a parameter narrowed to the one field the function reads --------------------------------------------------------
+
+// planParamWiden: an anchored function `name(.., q *S, ..)` that is gone while the package has exactly one function of a
+// new name (or of that name) with the same receiver, results and parameters except that position i holds the type of a
+// field F of S, every call of which passes `X.F` with X of the recorded type, is that function with its parameter
+// narrowed ("it only ever read pool.L2Advertisements"). The parameter is widened again: the declaration takes X's
+// type under the recorded parameter name, the body reads name.F where it read the narrowed parameter (never assigned
+// there), and every call passes X. The name, if it changed too, is given back by planAnchorRestore in the next pass.
+func planParamWiden(p *Prog, in *inliner, plan *canonPlan, skipDecl map[*ast.FuncDecl]bool) {
+	isTest := func(f *Fn) bool { return strings.HasSuffix(p.Fset.Position(f.Decl.Pos()).Filename, "_test.go") }
+	for _, want := range pinnedSigs {
+		Anchors.mu.Lock()
+		anch := Anchors.pinned[want.Pkg+"."+want.Name]
+		Anchors.mu.Unlock()
+		pk := p.ByPath[want.Pkg]
+		if !anch || pk == nil {
+			continue
+		}
+		present := false
+		type cand struct {
+			f     *Fn
+			idx   int
+			field string
+			calls []*ast.CallExpr
+		}
+		var cands []cand
+		for _, f := range p.fnList {
+			if f.Pkg != pk || f.Decl == nil || f.Decl.Body == nil || isTest(f) || f.Decl.Type.TypeParams != nil {
+				continue
+			}
+			have, ok := SigOf(f)
+			if !ok {
+				continue
+			}
+			if have.Name == want.Name && strings.TrimPrefix(have.Recv, "*") == strings.TrimPrefix(want.Recv, "*") && sameStrings(have.PTypes, want.PTypes) {
+				present = true
+				break
+			}
+			if skipDecl[f.Decl] || have.Recv != want.Recv || !sameStrings(have.RTypes, want.RTypes) || len(have.PTypes) != len(want.PTypes) {
+				continue
+			}
+			if have.Name != want.Name && pinnedNames[have.Pkg+"."+have.Name] {
+				continue
+			}
+			idx := -1
+			for i := range want.PTypes {
+				if have.PTypes[i] != want.PTypes[i] {
+					if idx >= 0 {
+						idx = -2
+						break
+					}
+					idx = i
+				}
+			}
+			if idx < 0 || strings.HasPrefix(want.PTypes[idx], "...") || strings.HasPrefix(have.PTypes[idx], "...") {
+				continue
+			}
+			// every reference is a direct call passing X.F, X of the recorded type
+			qual := types.RelativeTo(pk.Types)
+			field := ""
+			good := true
+			var calls []*ast.CallExpr
+			for _, pkg := range p.Pkgs {
+				for _, file := range pkg.Syntax {
+					ast.Inspect(file, func(n ast.Node) bool {
+						id, isId := n.(*ast.Ident)
+						if !isId || pkg.TypesInfo.Uses[id] != types.Object(f.Obj) {
+							return true
+						}
+						if pkg != pk {
+							good = false
+							return true
+						}
+						var call *ast.CallExpr
+						switch par := p.parents[id].(type) {
+						case *ast.CallExpr:
+							if par.Fun == ast.Expr(id) {
+								call = par
+							}
+						case *ast.SelectorExpr:
+							if pc, isCall := p.parents[par].(*ast.CallExpr); isCall && pc.Fun == ast.Expr(par) && par.Sel == id {
+								call = pc
+							}
+						}
+						if call == nil || call.Ellipsis.IsValid() || idx >= len(call.Args) {
+							good = false
+							return true
+						}
+						sel, isSel := ast.Unparen(call.Args[idx]).(*ast.SelectorExpr)
+						if !isSel {
+							good = false
+							return true
+						}
+						if s := pkg.TypesInfo.Selections[sel]; s == nil || s.Kind() != types.FieldVal || len(s.Index()) != 1 {
+							good = false
+							return true
+						}
+						xt := pkg.TypesInfo.TypeOf(sel.X)
+						if xt == nil || types.TypeString(xt, qual) != want.PTypes[idx] || !isPlainOperand(sel.X) {
+							good = false
+							return true
+						}
+						if field == "" {
+							field = sel.Sel.Name
+						} else if field != sel.Sel.Name {
+							good = false
+						}
+						calls = append(calls, call)
+						return true
+					})
+				}
+			}
+			if !good || len(calls) == 0 {
+				continue
+			}
+			cands = append(cands, cand{f, idx, field, calls})
+		}
+		if present || len(cands) != 1 {
+			continue
+		}
+		c := cands[0]
+		d := c.f.Decl
+		info := pk.TypesInfo
+		// the narrowed parameter: named, never assigned or address-taken in the body
+		var pobj types.Object
+		k := 0
+		for _, fld := range d.Type.Params.List {
+			if len(fld.Names) == 0 {
+				k++
+				continue
+			}
+			for _, nm := range fld.Names {
+				if k == c.idx {
+					pobj = info.Defs[nm]
+				}
+				k++
+			}
+		}
+		if pobj == nil || pobj.Name() == "_" {
+			continue
+		}
+		good := true
+		var uses []*ast.Ident
+		ast.Inspect(d.Body, func(n ast.Node) bool {
+			id, isId := n.(*ast.Ident)
+			if !isId || info.Uses[id] != pobj {
+				return true
+			}
+			switch par := p.parents[id].(type) {
+			case *ast.AssignStmt:
+				for _, l := range par.Lhs {
+					if l == ast.Expr(id) {
+						good = false
+					}
+				}
+			case *ast.UnaryExpr:
+				if par.Op == token.AND {
+					good = false
+				}
+			case *ast.IncDecStmt:
+				good = false
+			case *ast.RangeStmt:
+				if par.Key == ast.Expr(id) || par.Value == ast.Expr(id) {
+					good = false
+				}
+			}
+			uses = append(uses, id)
+			return true
+		})
+		if !good {
+			continue
+		}
+		pname := want.PNames[c.idx]
+		if pname == "" || pname == "_" {
+			pname = "widened"
+		}
+		clash := false
+		ast.Inspect(d, func(n ast.Node) bool {
+			if id, isId := n.(*ast.Ident); isId && id.Name == pname {
+				if v, isVar := info.ObjectOf(id).(*types.Var); isVar && v.IsField() {
+					return true
+				}
+				if info.ObjectOf(id) == pobj {
+					return true
+				}
+				clash = true
+			}
+			return true
+		})
+		if clash {
+			pname += "_"
+		}
+		xt := info.TypeOf(ast.Unparen(c.calls[0].Args[c.idx]).(*ast.SelectorExpr).X)
+		typeText := types.TypeString(xt, func(o *types.Package) string {
+			if o == pk.Types {
+				return ""
+			}
+			return o.Name()
+		})
+		var parts []string
+		k = 0
+		for _, fld := range d.Type.Params.List {
+			tt := in.text(fld.Type.Pos(), fld.Type.End())
+			if len(fld.Names) == 0 {
+				parts = append(parts, "_ "+tt)
+				k++
+				continue
+			}
+			for _, nm := range fld.Names {
+				if k == c.idx {
+					parts = append(parts, pname+" "+typeText)
+				} else {
+					parts = append(parts, nm.Name+" "+tt)
+				}
+				k++
+			}
+		}
+		fe := in.file(d.Pos())
+		fe.edits = append(fe.edits, textEdit{start: in.off(d.Type.Params.Opening), end: in.off(d.Type.Params.Closing) + 1, text: "(" + strings.Join(parts, ", ") + ")"})
+		for _, u := range uses {
+			fe := in.file(u.Pos())
+			fe.edits = append(fe.edits, textEdit{start: in.off(u.Pos()), end: in.off(u.End()), text: pname + "." + c.field})
+		}
+		for _, call := range c.calls {
+			a := call.Args[c.idx]
+			sel := ast.Unparen(a).(*ast.SelectorExpr)
+			fe := in.file(a.Pos())
+			fe.edits = append(fe.edits, textEdit{start: in.off(a.Pos()), end: in.off(a.End()), text: in.text(sel.X.Pos(), sel.X.End())})
+		}
+		skipDecl[d] = true
+		plan.expanded = append(plan.expanded, "parameter widened: "+d.Name.Name+" "+pobj.Name()+" -> "+pname+"."+c.field+" (again)")
+	}
 }
